@@ -303,7 +303,8 @@ func processExactFilter(mQuery *structs.MetricsQuery,
 
 func processWildcardOrRegexFilter(mQuery *structs.MetricsQuery,
 	tf *structs.TagsFilter, tracker *tsidtracker.AllMatchedTSIDs, metricName string,
-	tfIndex int, attr *AllTagTreeReaders, tth *wmetrics.TagsTreeHolder) error {
+	tfIndex int, attr *AllTagTreeReaders, tth *wmetrics.TagsTreeHolder) (retErr error) {
+	defer utils.RecoverToError(&retErr, "processWildcardOrRegexFilter")
 
 	var itr *TagValueIterator
 	var mNameExists bool
@@ -454,7 +455,8 @@ Returns:
 */
 func (attr *AllTagTreeReaders) getOrInsertMatchingTSIDs(mName uint64, tagKey string, tagValue uint64,
 	tagOperator sutils.TagOperator,
-	tsidCard *utils.GobbableHll) (bool, bool, map[string]map[uint64]struct{}, error) {
+	tsidCard *utils.GobbableHll) (_ bool, _ bool, _ map[string]map[uint64]struct{}, retErr error) {
+	defer utils.RecoverToError(&retErr, "getOrInsertMatchingTSIDs")
 
 	ttr, ok := attr.tagTrees[tagKey]
 	if !ok {
@@ -481,7 +483,8 @@ func (attr *AllTagTreeReaders) getOrInsertMatchingTSIDs(mName uint64, tagKey str
 // The return values are (mNameFound, tagValueFound, rawTagValueToTSIDs, error)
 func (ttr *TagTreeReader) getOrInsertMatchingTSIDs(mName uint64, tagValue uint64,
 	tagOperator sutils.TagOperator,
-	tsidCard *utils.GobbableHll) (bool, bool, map[string]map[uint64]struct{}, error) {
+	tsidCard *utils.GobbableHll) (_ bool, _ bool, _ map[string]map[uint64]struct{}, retErr error) {
+	defer utils.RecoverToError(&retErr, "getOrInsertMatchingTSIDs")
 
 	if tagOperator != sutils.Equal && tagOperator != sutils.NotEqual {
 		log.Errorf("TagTreeReader.getOrInsertMatchingTSIDs: tagOperator %v is not supported; only Equal and NotEqual are currently implemented", tagOperator)
